@@ -5,10 +5,10 @@
 import os, sys
 sys.path.insert(0, os.path.join(os.environ.get("AIOFTP_REPO", "/repo"), "src"))
 OBLIGATION = 'rt:c08/parse_mlsx_line/name-preserved'
-MODEL = {'kind': 'mlsx', 'name': ' -> =2; b'}
+MODEL = {'kind': 'mlsx', 'name': 'rev=2; final'}
 SOLVER_NOTE = 'found by the bounded run-time contract checker on the real code'
 
 import json, subprocess
-inp = {'kind': 'mlsx', 'name': ' -> =2; b'}
+inp = {'kind': 'mlsx', 'name': 'rev=2; final'}
 p = subprocess.run(["/venv/bin/python", '/verif/rt/c08_rt.py', "replay", json.dumps(inp)], capture_output=True, text=True, env=dict(os.environ))
 print(p.stdout.strip() or p.stderr.strip())
